@@ -32,7 +32,7 @@ func (c *ctx) accepted(groups ...string) []*universe.UStruct {
 			continue
 		}
 		if len(groups) == 0 {
-			if u.Group != "cluster" && u.Group != "clusterleaf" {
+			if u.Group != "cluster" && u.Group != "clusterleaf" && u.Group != "huge" {
 				out = append(out, u)
 			}
 			continue
@@ -816,6 +816,27 @@ func (c *ctx) concurrent(us []*universe.UStruct, workers, steps int) {
 					if tv := cc.mkMessage(cc.writerOf(u), g); tv != nil {
 						cc.decorate(tv)
 						hh.opDec(u, tv.ser(nil), cc.dest(u, g), false)
+					}
+				}
+				// the error paths run concurrently too: a container whose element / key / value code is not
+				// a Thrift type code (the same few codes in every worker: P1 raced on a per-code cache slot)
+				if cc.r.Intn(2) == 0 {
+					if tv := cc.mkMessage(u, g); tv != nil {
+						var conts []*TV
+						tv.containers(&conts)
+						if len(conts) > 0 {
+							cn := conts[cc.r.Intn(len(conts))]
+							bad := []byte{1, 5, 7, 9, 16, 0x11, 0x20, 0x7f}[cc.r.Intn(8)]
+							switch {
+							case cn.T != tMAP:
+								cn.ET = bad
+							case cc.r.Intn(2) == 0:
+								cn.KT = bad
+							default:
+								cn.VT = bad
+							}
+							hh.opDec(u, tv.ser(nil), fresh(u), false)
+						}
 					}
 				}
 			}
